@@ -130,8 +130,12 @@ def main():
             if ok:
                 discharged = len(obligations)
                 al = parse_assumptions(plog)
-                for (name, _), ax in zip(obligations, al):
-                    axioms[name] = ax
+                # Print Assumptions commands of the file, in order, match the outputs in order
+                src = open(os.path.join(B.COQ, "theories", "Props", "Properties_%s.v" % pid)).read()
+                src = re.sub(r"\(\*.*?\*\)", " ", src, flags=re.S)
+                printed = re.findall(r"Print Assumptions\s+([A-Za-z0-9_.']+)\s*\.", src)
+                for name, ax in zip(printed, al):
+                    axioms[name.split(".")[-1]] = ax
             else:
                 m = re.search(r"Properties_%s\.v\", line (\d+)" % pid, plog)
                 if m:
